@@ -72,6 +72,15 @@ def cases(ctx):
                 yield {"kind": "request", "type": tp, "number": rng.choice([1, 2, 3]), "rotations_local": list(rng.choice(triples)),
                        "rotations_remote": list(rng.choice(triples)) if tp == "M" else None, "max_time": rng.choice([0, 5]),
                        "time_unit": rng.choice(["MICRO_SECONDS", "SECONDS"]), "socket": rng.choice([0, 2]), "remote": "bob"}
+    for tp in ("K", "M", "R"):
+        for extra in ({}, {"rotations_local": [1, 2, 3]}, {"basis_local": "X"}, {"random_basis_local": "XZ"}, {"max_time": 5, "time_unit": "SECONDS"},
+                      {"rotations_local": [8, 0, 31], "rotations_remote": [1, 1, 1]}):
+            if tp == "K" and any(x in extra for x in ("rotations_local", "basis_local", "random_basis_local", "rotations_remote")):
+                continue
+            if tp == "R" and "rotations_remote" in extra:
+                continue
+            if mine():
+                yield dict({"kind": "request", "type": tp, "number": rng.choice([1, 2]), "socket": 0, "remote": "bob", "via_create": True}, **extra)
     # several create calls in ONE subroutine whose parameters are permutations of each other
     pool = [{"basis_local": "X"}, {"basis_remote": "X"}, {"random_basis_local": "XZ"}, {"random_basis_remote": "XZ"},
             {"rotations_local": [1, 8, 16]}, {"rotations_remote": [1, 8, 16]}, {"rotations_local": [16, 8, 1]},
@@ -100,6 +109,11 @@ def cases(ctx):
                         yield {"kind": "result", "role": role, "api": api, "number": number,
                                "bells": [rng.randrange(4) for _ in range(number)], "bases": [rng.randrange(5) for _ in range(number)],
                                "remote": rng.choice(["bob", "charlie"]), "socket": rng.choice([0, 1])}
+                # the link layer answers with qlink-interface 1.0 objects (its own Bell-state enum; goodness_time = time_of_goodness)
+                if api in ("keep", "keep_with_info", "measure") and mine():
+                    yield {"kind": "result", "role": role, "api": api, "number": number, "qlink10": True,
+                           "bells": [rng.randrange(4) for _ in range(number)], "bases": [rng.randrange(5) for _ in range(number)],
+                           "remote": rng.choice(["bob", "charlie"]), "socket": rng.choice([0, 1])}
                 # single-communication-qubit (NV) hardware: the pairs are moved to memory qubits n-1 .. 0
                 if api in ("keep", "keep_with_info", "measure") and mine():
                     yield {"kind": "result", "role": role, "api": api, "number": number, "hardware": "nv",
@@ -379,7 +393,12 @@ def _request(ctx, case):
     nontrivial = number >= 2 or len(kw) > 0
     try:
         with pipe.conn as conn:
-            if tp == "K":
+            if case.get("via_create"):
+                # the older single entry point create(tp=...), still accepted
+                from netqasm.sdk.build_epr import EPRType
+                ctx.count("requests_via_create_wrapper")
+                es.create(number=number, tp=EPRType[tp], **kw)
+            elif tp == "K":
                 es.create_keep(number, **kw)
             elif tp == "M":
                 es.create_measure(number, **kw)
@@ -470,7 +489,7 @@ def _result(ctx, case):
         return None
     es = EPRSocket(case["remote"], epr_socket_id=case["socket"], remote_epr_socket_id=case["socket"])
     req = PlannedRequest(role, tp, number, remote=remote, socket=case["socket"], bells=case["bells"], fields=fld)
-    link = LinkModel([req])
+    link = LinkModel([req], qlink10=bool(case.get("qlink10")))
     pipe = Pipe(epr_sockets=[es], link=link, max_qubits=5, hardware=case.get("hardware", "generic"))
     qubits, infos, mres = None, None, None
     try:
